@@ -135,7 +135,7 @@ func c04Run(api *impl.API, r *gen.Rand, in []byte, s c04Sched, limit int) readRu
 func (c04) Run(c *mon.Ctx, i int) {
 	r := c.R
 	var vs *ValidStream
-	switch i % 6 {
+	switch i % 7 {
 	case 0:
 		// long dynamic header right at the start and again later
 		s := synth.NewStream(r)
@@ -160,6 +160,12 @@ func (c04) Run(c *mon.Ctx, i int) {
 		s.Fixed(false, toks, true)
 		s.Stored(true, r.Bytes(r.Range(0, 9000)))
 		vs = &ValidStream{S: s.W.Bytes(), Plain: s.Plain, Desc: "synth-history-wrap"}
+	case 4:
+		// (delta, j) enumerated: 4 x 4 combinations, each several times per tier
+		st, plain, d := synth.WindowEdge(r, (i/7)%4, (i/28)%4+1, r.Pick(0, 0, 0, 1), r.Chance(1, 4), r.Chance(1, 5))
+		// more input behind it, so that a final tiny block still gets the
+		// multi-symbol table when everything is delivered at once
+		vs = &ValidStream{S: st, Plain: plain, Desc: "synth " + d}
 	case 5:
 		// large word-salad text: single literals and short matches alternate, so
 		// packed literal+match table entries are everywhere, several history
